@@ -51,10 +51,12 @@ def main(tier, t0):
         "YNUM^2 (x^3+A'x+B') XDEN^3 == (XNUM^3 + b XDEN^3) YDEN^2 with the A', B' that the SSWU map uses and the target curve's b, have degrees "
         '(d, d-1, 3(d-1)/2, 3(d-1)/2) with monic denominators and coprime x-parts: they define a normalised degree-11 / degree-3 rational map '
         "E' -> E fixing infinity, i.e. an isogeny (image on E, kernel and identity to identity, homomorphism) -- a for-all-points fact about the tables. "
-        'Wiring: own tables, same evaluator, scratch sizes cover table lengths. NOT decided: that the projective Horner code evaluates those '
-        'polynomials (polynomial identity of code; pinned by raw-coordinate test vectors), nor which of the finitely many isogenies of that degree it is.',
+        'Wiring: own tables, same evaluator, scratch sizes cover table lengths. Evaluator: abstract interpretation of eval_iso in the sum-of-monomials domain '
+        '(products only by monomials; products of two sums interned, never expanded) shows on every path, for both groups and every Jacobian representative, '
+        'X/Z^2 = XNUM(x/z^2)/XDEN(x/z^2) and Y/Z^3 = (y/z^3) YNUM(x/z^2)/YDEN(x/z^2) as homogenised sums over the table coefficients. '
+        'NOT decided: which of the finitely many isogenies of that degree it is.',
         ['rustc const evaluation', 'a non-constant rational map between elliptic curves fixing infinity is a homomorphism'],
-        ['partial claim: tables decided, evaluator code not'])
+        ['tables and evaluator decided relative to the field-operation contracts'])
 
 
 # ---------------------------------------------------------------- the evaluator itself
